@@ -105,7 +105,7 @@ def st_case():
         return {'what': 'stack', 'decos': decos, 'spec': [list(p) for p in spec], 'placement': placement,
                 'selfname': draw(st.sampled_from(['self', 'self', 'this'])),
                 'stepwise': draw(st.integers(0, 2)) == 0, 'falsy': draw(st.integers(0, 2)) == 0,
-                'wrapped': draw(st.sampled_from(['plain', 'plain', 'plain', 'forwards_to', 'forwards_to_emulate', 'kwoargs']))}
+                'wrapped': draw(st.sampled_from(['plain', 'plain', 'plain', 'forwards_to', 'forwards_to_emulate', 'kwoargs', 'own_signature']))}
     return build()
 
 
@@ -195,6 +195,9 @@ def render(case):
             src += 'def plain(%s):\n    if RAISE[0]:\n        raise UserErr(7)\n    return ("f", {%s})\n' % (universe.spec_text(spec), rec)
             if wk == 'kwoargs':
                 src += 'from sigtools import modifiers\nplain = modifiers.kwoargs(%r)(plain)\n' % [p.name for p in spec if p.kind == POK][-1]
+            if wk == 'own_signature':
+                # the decorated function states its (own, true) signature explicitly
+                src += 'import inspect as _inspect\nplain.__signature__ = _inspect.signature(plain)\n'
         # stepwise: the signature of every intermediate layer is retrieved before the next decorator is applied
         peek = ('import sigtools as _st, inspect as _ins\nfor _get in (_st.signature, _ins.signature):\n    try:\n        _get(target)\n'
                 '    except Exception:\n        pass\n') if case.get('stepwise') else ''
